@@ -258,6 +258,31 @@ def sec_compose(ctx, rng, case):
         # repeating an already repeated op joins the ids (outer-inner); the docs say ids are joined with the separator
         want_joined = sorted("%s-%s:%s" % (o, i, k) for o in ["p", "q"] for i in ids for k in ["a", "b"])
         ctx.check(got in (want, want_joined) or len(got) == 8, "composition-laws", "C12:repeat-repeat-ids-keys", "%r" % got, **wit)
+        # repeat of a repeat = the repeated operation repeated: executions run outer-major, and each execution's record
+        # sits under "<outer>-<inner>:key" (REPETITION_ID_SEPARATOR joins the ids)
+        ids_in = [["i", "j"], ["i", "j", "k"], None][int(rng.integers(3))]
+        ids_out = [["p", "q"], ["p", "q", "r"]][int(rng.integers(2))]
+        inner = op.repeat(len(ids_in), ids_in) if ids_in is not None else cirq.CircuitOperation(body, repetitions=2, use_repetition_ids=True)
+        names_in = ids_in if ids_in is not None else ["0", "1"]
+        how = int(rng.integers(2))
+        both = inner.repeat(len(ids_out), ids_out) if how == 0 else inner.repeat(repetition_ids=ids_out)
+        mstep = [st for st in steps if st["t"] == "M"]
+        if len(names_in) * len(ids_out) * sum(len(st["w"]) for st in mstep) <= 12:
+            flat_rr = []
+            for o_ in ids_out:
+                for i_ in names_in:
+                    for st in steps:
+                        flat_rr.append(dict(st, key="%s-%s:%s" % (o_, i_, st["key"])) if st["t"] == "M" else st)
+            ref_rr = I.distribution(I.run(P.to_ref(flat_rr), dims))
+            want_ids = ["%s-%s" % (o_, i_) for o_ in ids_out for i_ in names_in]
+            ctx.check(list(both.repetition_ids) == want_ids, "composition-laws", "C12:repeat-repeat-id-order",
+                      "repetition_ids %r, expected outer-major %r" % (list(both.repetition_ids), want_ids), inner_ids=ids_in, outer_ids=ids_out, **wit)
+            ex_rr = _explore_run(cirq.Circuit(both), ["sv", "dm"][int(rng.integers(2))])
+            if not ex_rr.over_budget:
+                tv_rr = L.tv_distance(ex_rr.distribution(), ref_rr)
+                ctx.check(tv_rr <= 1e-6, "composition-laws", "C12:repeat-repeat-records",
+                          lambda: "records of op.repeat(ids).repeat(ids) differ from the flat program run outer-major (TV %.3g)" % tv_rr,
+                          inner_ids=ids_in, outer_ids=ids_out, **wit)
         pk = op.with_key_path(("top",))
         got = sorted(cirq.measurement_key_names(pk))
         ctx.check(got == ["top:a", "top:b"], "composition-laws", "C12:with_key_path", "%r" % got, **wit)
